@@ -6,10 +6,13 @@
 //  2. server: concurrent traffic of two connections in look-alike namespaces, explored to a bound;
 //  3. Go client: a raw Engine.IO endpoint (the repo's eio.Server driven by the harness) answers the
 //     CONNECTs of a 3-socket Manager in every order with events placed before/after each reply;
-//  4. Go client <-> server: a second namespace is connected (and used at once) on an open connection.
+//  4. Go client <-> server: a second namespace is connected (and used at once) on an open connection;
+//  5. 6. 7. leaving / rejoining a namespace around its admission, emits on a namespace that is not joined;
+//  8. server: broadcasts in a namespace while a CONNECT for it is held undecided by a slow middleware.
 package main
 
 import (
+	"encoding/json"
 	"fmt"
 	"sort"
 	"strings"
@@ -1059,6 +1062,188 @@ func emitOnUnjoinedNamespace(name, state string, bound int) *vx.Scenario {
 	return sc
 }
 
+// ---------------------------------------------------------------- 8. broadcasts in a namespace while a CONNECT for it is still undecided
+//
+// One connection is a member of /b and asks for /a; a middleware of /a takes its time (it blocks until the
+// harness lets it decide) and then accepts or refuses. While it is undecided the application broadcasts in /a
+// through every selector (nsp.Emit, nsp.To(room).Emit, a member's Broadcast().Emit and To(room).Emit) and in /b.
+// The undecided socket may already have room memberships in /a: none, a room the middleware itself joined it to,
+// or the rooms of a recovered session (connection state recovery with UseMiddlewares: rooms are restored before
+// the middlewares run). Until the server has accepted the CONNECT the connection is not attached to /a: no event
+// of /a may be written to it before the CONNECT reply, and none at all when the CONNECT is refused. /b goes on
+// working, and a member of /a on another connection gets nothing of /b.
+func broadcastWhileConnectUndecided(name, membership string, accept bool, bound int) *vx.Scenario {
+	sc := &vx.Scenario{Name: name, Bound: bound, Horizon: 60 * time.Second}
+	sc.Body = func(e *vsched.Exec) func() vx.Result {
+		vsched.SetExploring(false)
+		scfg := &sio.ServerConfig{}
+		if membership == "recovered-session-rooms" {
+			scfg.ServerConnectionStateRecovery.Enabled = true
+			scfg.ServerConnectionStateRecovery.UseMiddlewares = true
+		}
+		srv := sio.NewServer(scfg)
+		var v vsched.Var
+		gate := make(chan struct{})
+		entered, recovered := false, false
+		var fastSocks []sio.ServerSocket
+		a, b := srv.Of("/a"), srv.Of("/b")
+		a.Use(func(s sio.ServerSocket, h *sio.Handshake) any {
+			if strings.Contains(string(h.Auth), `"fast":true`) {
+				v.Do(func() { fastSocks = append(fastSocks, s) })
+				return nil
+			}
+			if membership == "middleware-joins-room" {
+				s.Join("staff")
+			}
+			rec := s.Recovered()
+			v.Do(func() { entered, recovered = true, rec })
+			vsched.RecvStmt(gate) // slow middleware: the CONNECT stays undecided
+			if !accept {
+				return fmt.Errorf("not for you")
+			}
+			return nil
+		})
+		a.OnConnection(func(s sio.ServerSocket) {})
+		var bSock sio.ServerSocket
+		b.Use(func(s sio.ServerSocket, h *sio.Handshake) any { v.Do(func() { bSock = s }); return nil })
+		b.OnConnection(func(s sio.ServerSocket) {})
+
+		// a member of /a (and of its room "staff") on another connection
+		peer := vrig.NewFakeEIO(srv, "peer")
+		peer.In(`0/a,{"fast":true}`)
+		peer.AwaitFrame("0/a,{")
+		vsched.Await(func() bool { return len(fastSocks) == 1 })
+		peerSock := fastSocks[0]
+		peerSock.Join("staff")
+
+		auth := ""
+		if membership == "recovered-session-rooms" {
+			// first life of the session: admitted, joined to "staff", sent one logged broadcast, then the transport is cut
+			f0 := vrig.NewFakeEIO(srv, "k0-first-life")
+			f0.In(`0/a,{"fast":true}`)
+			f0.AwaitFrame("0/a,{")
+			vsched.Await(func() bool { return len(fastSocks) == 2 })
+			fastSocks[1].Join("staff")
+			vrig.Settle(100 * time.Millisecond)
+			a.Emit("ev", "logged")
+			vrig.Settle(100 * time.Millisecond)
+			var ids struct {
+				PID string `json:"pid"`
+			}
+			var logged []string
+			for _, t := range f0.Texts() {
+				if strings.HasPrefix(t, "0/a,") {
+					json.Unmarshal([]byte(t[len("0/a,"):]), &ids)
+				}
+				if strings.HasPrefix(t, "2/a,") && strings.Contains(t, `"logged"`) {
+					json.Unmarshal([]byte(t[len("2/a,"):]), &logged)
+				}
+			}
+			if ids.PID == "" || len(logged) != 3 {
+				// no pid / offset from the first life of the session: not what this scenario judges (a Body that
+				// does not return is reported as a harness error)
+				vsched.Await(func() bool { return false })
+			}
+			f0.TransportClose(eio.ReasonTransportClose)
+			vrig.Settle(time.Second)
+			auth = fmt.Sprintf(`{"pid":%q,"offset":%q}`, ids.PID, logged[2])
+		}
+
+		f := vrig.NewFakeEIO(srv, "k0")
+		f.ConnectNS("/b")
+		vsched.Await(func() bool { return bSock != nil })
+		bSock.Join("staff") // a room of the same name in the other namespace
+		vrig.Settle(100 * time.Millisecond)
+		vsched.SetExploring(true)
+
+		vsched.GoQuiet("connect-a", func() { f.In("0/a," + auth) }) // returns when the middlewares have decided
+		vsched.Await(func() bool { return entered })
+		listedUndecided := len(a.Sockets())
+		a.Emit("ev", "undecided:nsp.Emit")
+		a.To("staff").Emit("ev", "undecided:nsp.To(room).Emit")
+		peerSock.Broadcast().Emit("ev", "undecided:member.Broadcast().Emit")
+		peerSock.To("staff").Emit("ev", "undecided:member.To(room).Emit")
+		b.To("staff").Emit("ev", "b1")
+		// the middleware cannot have decided yet: it is released only now
+		vsched.Close(gate)
+		vrig.Settle(2 * time.Second)
+		listedDecided := len(a.Sockets())
+		a.Emit("ev", "decided:nsp.Emit")
+		b.To("staff").Emit("ev", "b2")
+		vrig.Settle(2 * time.Second)
+
+		return func() vx.Result {
+			var r vx.Result
+			// what the connection was sent, in wire order: CONNECT replies / errors by type, events by their tag
+			var wire []string
+			reply := -1
+			var early, bGot []string
+			decidedEv, aEvents := 0, 0
+			for _, t := range f.Texts() {
+				switch {
+				case strings.HasPrefix(t, "0/a,"):
+					reply = len(wire)
+					wire = append(wire, "CONNECT(/a)")
+				case strings.HasPrefix(t, "4/a,"):
+					wire = append(wire, "CONNECT_ERROR(/a)")
+				case strings.HasPrefix(t, "0/b,"):
+					wire = append(wire, "CONNECT(/b)")
+				case strings.HasPrefix(t, "2/a,") || strings.HasPrefix(t, "2/b,"):
+					var args []string
+					json.Unmarshal([]byte(t[len("2/a,"):]), &args)
+					tag := "?"
+					if len(args) >= 2 {
+						tag = args[1]
+					}
+					wire = append(wire, t[1:3]+":"+tag)
+					if strings.HasPrefix(t, "2/b,") {
+						bGot = append(bGot, tag)
+						continue
+					}
+					aEvents++
+					if strings.HasPrefix(tag, "undecided:") && reply < 0 {
+						early = append(early, strings.TrimPrefix(tag, "undecided:"))
+					}
+					if tag == "decided:nsp.Emit" {
+						decidedEv++
+					}
+				default:
+					wire = append(wire, t)
+				}
+			}
+			r.Outcome = fmt.Sprintf("wire=%v closed=%d listed=%d/%d recovered=%v", wire, f.Closed, listedUndecided, listedDecided, recovered)
+			verdict := "refuses"
+			if accept {
+				verdict = "accepts"
+			}
+			ctx := fmt.Sprintf("%s: the connection is a member of /b; its CONNECT for /a (room memberships of the socket in /a: %s; session recovered: %v) is held by a middleware that later %s; while it is undecided the application broadcasts in /a (nsp.Emit, nsp.To(room).Emit, a member's Broadcast().Emit and To(room).Emit) and in /b, and once more in both after the decision; the connection was sent %v (closed %d times); /a listed %d socket(s) while the CONNECT was undecided (1 member on another connection) and %d after the decision; the member of /a on the other connection was sent %v",
+				name, membership, recovered, verdict, wire, f.Closed, listedUndecided, listedDecided, peer.Texts())
+			if len(early) > 0 {
+				r.Violate("broadcast while a CONNECT is undecided: an event of the namespace was written to the connection before the server accepted its CONNECT", "%s; selectors that reached it: %v", ctx, early)
+			}
+			if !accept && aEvents > 0 {
+				r.Violate("broadcast while a CONNECT is undecided: an event of the namespace was written to a connection whose CONNECT was refused", "%s", ctx)
+			}
+			if listedUndecided != 1 || (!accept && listedDecided != 1) {
+				r.Violate("broadcast while a CONNECT is undecided: the namespace lists a socket whose CONNECT it has not accepted", "%s", ctx)
+			}
+			if f.Closed > 0 || fmt.Sprint(bGot) != "[b1 b2]" {
+				r.Violate("broadcast while a CONNECT is undecided: the other namespace of the connection stopped working", "%s", ctx)
+			}
+			if accept && (reply < 0 || decidedEv != 1 || listedDecided != 2) {
+				r.Violate("broadcast while a CONNECT is undecided: the namespace does not work after the CONNECT was accepted (CONNECT reply, one event, two sockets listed expected)", "%s", ctx)
+			}
+			for _, t := range peer.Texts() {
+				if len(t) > 1 && strings.HasPrefix(t[1:], "/b,") {
+					r.Violate("broadcast while a CONNECT is undecided: frame of another namespace delivered to a connection that never joined it", "%s", ctx)
+				}
+			}
+			return r
+		}
+	}
+	return sc
+}
+
 func scenarios(tier string) []*vx.Scenario {
 	b := 1
 	if tier == "thorough" {
@@ -1086,6 +1271,15 @@ func scenarios(tier string) []*vx.Scenario {
 	for _, k := range []int{1, 2, 3, 5} {
 		s = append(s, leaveWhileReplyInFlight(fmt.Sprintf("client-leaves-while-connect-reply-in-flight/disconnect-at-%d-quarters-of-the-latency", k), k, b))
 	}
+	for _, mem := range []string{"no-room", "middleware-joins-room", "recovered-session-rooms"} {
+		for _, accept := range []bool{true, false} {
+			verdict := "refused"
+			if accept {
+				verdict = "accepted"
+			}
+			s = append(s, broadcastWhileConnectUndecided("broadcast-while-connect-undecided/"+mem+"-then-"+verdict, mem, accept, b))
+		}
+	}
 	return s
 }
 
@@ -1094,7 +1288,7 @@ func main() {
 		Property: "C05",
 		Level:    "model_checking",
 		Rule: "server: explicit-state BFS (canonical state = joined namespaces per connection + how each socket that left did so, so that a rejoin after every way of leaving is explored) over histories of CONNECT / CONNECT-whose-connection-handler-kicks / EVENT / EVENT+ack / DISCONNECT / server-side kick / nsp.Emit / socket.Emit / cross-namespace ack race on 2 connections x {'/', '/a', '/ab', '/a/b', a non-existent one}, every history replayed on the real server and compared with a routing model after every step; " +
-			"concurrent connections in look-alike namespaces, and concurrent binary emits in two namespaces sharing one connection (frames of one packet stay together on the shared wire), explored to the bound; Go client: all 6 orders of CONNECT replies x early/late event placements against a raw Engine.IO endpoint; second namespace on an open connection; a socket leaving its namespace around its connection handler (kicked by the handler, kicked by a racing DisconnectSockets, client DISCONNECT during a slow handler) followed by a rejoin, explored to the bound; the Go client leaving a namespace while its CONNECT reply is in flight (latency L on poll answers, Disconnect() at k*L/4) and rejoining it, next to an idle second namespace on the same Manager. distinct_nontrivial = histories of length >= 2 + deviating schedules",
+			"concurrent connections in look-alike namespaces, and concurrent binary emits in two namespaces sharing one connection (frames of one packet stay together on the shared wire), explored to the bound; Go client: all 6 orders of CONNECT replies x early/late event placements against a raw Engine.IO endpoint; second namespace on an open connection; a socket leaving its namespace around its connection handler (kicked by the handler, kicked by a racing DisconnectSockets, client DISCONNECT during a slow handler) followed by a rejoin, explored to the bound; the Go client leaving a namespace while its CONNECT reply is in flight (latency L on poll answers, Disconnect() at k*L/4) and rejoining it, next to an idle second namespace on the same Manager; broadcasts in a namespace (nsp.Emit, nsp.To(room).Emit, a member's Broadcast().Emit / To(room).Emit) while a CONNECT for it is held undecided by a slow middleware that then accepts / refuses, on a connection that is a member of another namespace, with the undecided socket in no room / in a room its middleware joined / in the rooms of a recovered session (UseMiddlewares): nothing of the namespace on the wire before the CONNECT reply, nothing at all after a refusal. distinct_nontrivial = histories of length >= 2 + deviating schedules",
 		Scenarios: scenarios,
 		Budget: func(tier string) time.Duration {
 			if tier == "thorough" {
